@@ -231,6 +231,22 @@ def check(wrapped):
     # targeted placement (used by the per-name scan): put one given name on one column / table
     if wrapped.get("force_col") and cols:
         tgt = cols[wrapped.get("force_idx", 0) % len(cols)]
+        if wrapped.get("force_on_one_join_side"):
+            # prefer a column that exists on exactly ONE input of some join (a scratch name has to be free on both)
+            try:
+                sch = schema.infer(case)
+                one_sided = []
+                for i in spec.reachable(case):
+                    nd = case["nodes"][i]
+                    if nd["op"] == "natural_join":
+                        ca, cb = set(sch[nd["a"]].names()), set(sch[nd["b"]].names())
+                        keys = {x for pr in nd["on"] for x in pr}
+                        one_sided += sorted((ca ^ cb) - keys)
+                one_sided = [c for c in dict.fromkeys(one_sided) if c in cols]
+                if one_sided:
+                    tgt = one_sided[wrapped.get("force_idx", 0) % len(one_sided)]
+            except Exception:  # noqa
+                pass
         n = wrapped["force_col"]
         for k, v in list(cmap.items()):
             if v.lower() == n.lower() and k != tgt:
@@ -378,6 +394,7 @@ def join_scratch_cases(cfg):
             "flip_order": st.just(False),
             "force_col": st.sampled_from(names),
             "force_idx": st.sampled_from(range(12)),
+            "force_on_one_join_side": st.sampled_from([True, True, False]),
         }
     )
 
